@@ -18,3 +18,25 @@ func (r *Reliable) VerifShutdownState() (state int, senderClosed bool, closedSig
 
 // VerifMuxerState: 0 running, 1 stopping, 2 stopped.
 func (m *Muxer) VerifMuxerState() int { return int(m.state.Load().(muxerState)) }
+
+// VerifUnreliableState exposes the lifecycle observables of an Unreliable tube: state (0 created,
+// 1 initiated, 2 closed) and which of the lifecycle channels have been closed.
+func (u *Unreliable) VerifUnreliableState() (st int, initiateDone, senderDone, closedSignalled bool) {
+	switch u.state.Load() {
+	case created:
+		st = 0
+	case initiated:
+		st = 1
+	default:
+		st = 2
+	}
+	isClosed := func(c chan struct{}) bool {
+		select {
+		case <-c:
+			return true
+		default:
+			return false
+		}
+	}
+	return st, isClosed(u.initiateDone), isClosed(u.senderDone), isClosed(u.closed)
+}
